@@ -47,6 +47,8 @@ def run(prop, components, tier, lean_targets=(), level_text="", assumptions=(), 
     # all minimisation of one run shares a wall-clock allowance (a failing case is reported unminimised beyond it)
     vlib.MINIMISE_DEADLINE[0] = None
     minimise_allowance = 240 if tier == "quick" else 1500
+    if os.environ.get("VERIF_NO_MINIMISE") == "1":      # regression runs against seeded changes: the verdict is enough
+        minimise_allowance = 0
     if replay:
         return do_replay(prop, components, replay)
     st = vlib.lean_stage(prop, list(lean_targets), tier)
